@@ -6,13 +6,25 @@
     clearloop <ctrl> <budget> <res0> <letters> <tail> _clear_repository
     send <asShipped:1|0> <budget> <letters> <tail>    Ipmi.send_message
     consts                                            constants read from the source
+    data <store r|d> <stale 1|0> <id> <res|-> <res0> <recs> <letters> <tail>
+                                                      get_repository_sdr / get_device_sdr (get_sdr_data_helper over the
+                                                      chunk reader) against the scripted device `SdrXfer.scriptX`
+    dlist <store r|d> <stale 1|0> <fuel> <res0> <recs> <letters> <tail>
+                                                      sdr_repository_entries / device_sdr_entries
+         recs ::= - | <hex>,<hex>,…   records the device serves;  res0 = last reservation id it granted;
+         stale = `Variant.staleRes` (1 = the renewed id is dropped, as probed on the real code); the other
+         components of the variant are the ones read from the source
 
   letters ::= - | L(,L)*      L ::= C | P | R | T | U | B | O<code>
   answer  ::= <outcome tag> <trace>      trace ::= - | E(,E)*
   E ::= r<granted> | c<ctrl>:<res>:<L> | k<res>:<L> | x<L>
+  data / dlist:  outcome ::= ok=<next>:<hex> | ok=<hex>;<hex>;… | <error tag>
+     E ::= r<granted> | g<res>:<id>:<off>:<cnt>:<cc>   (requests to the store being read)
+         | w<granted> | h<res>:<id>:<off>:<cnt>:<cc>   (requests to the other store)  | ?
 -/
 import PyIpmi.Base.Proto
 import PyIpmi.Model.Retry
+import PyIpmi.Model.SdrXfer
 import PyIpmi.Gen.Loops11
 open PyIpmi PyIpmi.Proto PyIpmi.Model.Retry
 
@@ -52,6 +64,63 @@ def showTrace (t : List Ev) : String :=
 def answer {α : Type} (p : Env × Outcome α) : String :=
   s!"{p.2.tag} {showTrace p.1.trace}"
 
+/-! record-chunk fetching above the chunk helper, on the scripted device -/
+open PyIpmi.Model.SdrXfer PyIpmi.Spec.Sdr in
+def showXchg13 (s : Store) (e : Req × Rsp) : String :=
+  let cc : Nat := match e.2 with
+    | .err c => c
+    | _ => 0
+  match e with
+  | (.reserve s', .reserved id) => (if s' = s then "r" else "w") ++ toString id
+  | (.get s' res id off cnt, _) => (if s' = s then "g" else "h") ++ s!"{res}:{id}:{off}:{cnt}:{cc}"
+  | _ => "?"
+
+open PyIpmi.Model.SdrXfer PyIpmi.Spec.Sdr in
+def answerX {α : Type} (s : Store) (r : (ScriptDev × List (Req × Rsp)) × Outcome α) (f : α → String) : String :=
+  let o := match r.2 with
+    | .ok a => "ok=" ++ f a
+    | e => e.tag
+  let t := if r.1.2.isEmpty then "-" else ",".intercalate (r.1.2.map (showXchg13 s))
+  s!"{o} {t}"
+
+def parseRecs13 (s : String) : Option (List (List Nat)) :=
+  if s == "-" then some [] else (s.splitOn ",").mapM ofHex
+
+open PyIpmi.Model.SdrXfer PyIpmi.Spec.Sdr in
+def parseStore13 (s : String) : Option Store :=
+  if s == "r" then some .repo else if s == "d" then some .dev else none
+
+open PyIpmi.Model.SdrXfer in
+def variant13 (stale : Nat) : Variant := { PyIpmi.Gen.Loops11.variantRead with staleRes := stale != 0 }
+
+def XK13 : PyIpmi.Model.SdrXfer.XConsts := PyIpmi.Gen.Loops11.xconsts
+
+open PyIpmi.Model.SdrXfer PyIpmi.Spec.Sdr in
+def handleSdr13 (toks : List String) : Option String :=
+  match toks with
+  | ["data", st, v, id, res, r0, recs, ls, t] => do
+    let st ← parseStore13 st
+    let v ← v.toNat?
+    let id ← id.toNat?
+    let res? ← (if res == "-" then some none else res.toNat?.map some)
+    let r0 ← r0.toNat?
+    let recs ← parseRecs13 recs
+    let ls ← parseLetters ls
+    let t ← parseLetter t
+    pure (answerX st (getSdrData K13 XK13 (variant13 v) (traced scriptX) st (⟨⟨ls, t⟩, r0, recs⟩, []) id res?)
+      (fun (p : Nat × List Nat) => s!"{p.1}:{toHex p.2}"))
+  | ["dlist", st, v, fuel, r0, recs, ls, t] => do
+    let st ← parseStore13 st
+    let v ← v.toNat?
+    let fuel ← fuel.toNat?
+    let r0 ← r0.toNat?
+    let recs ← parseRecs13 recs
+    let ls ← parseLetters ls
+    let t ← parseLetter t
+    pure (answerX st (sdrList K13 XK13 (variant13 v) (traced scriptX) st fuel (⟨⟨ls, t⟩, r0, recs⟩, []))
+      (fun (l : List (List Nat)) => if l.isEmpty then "-" else ";".intercalate (l.map toHex)))
+  | _ => none
+
 def handleC13 (line : String) : String :=
   match tokens line with
   | ["ping"] => "pong"
@@ -76,7 +145,7 @@ def handleC13 (line : String) : String :=
     match v.toNat?, b.toNat?, parseLetters ls, parseLetter t with
     | some v, some b, some ls, some t => answer (runSend K13 ⟨v != 0⟩ b ⟨ls, t⟩)
     | _, _, _, _ => "bad-op"
-  | _ => "bad-op"
+  | toks => (handleSdr13 toks).getD "bad-op"
 
 def main : IO Unit := do
   loop (← IO.getStdin) (← IO.getStdout) handleC13
